@@ -99,7 +99,21 @@ type c20cEntry struct {
 	Svc  *v1.Service // S: the object the handler was given (nil = deleted)
 }
 
-func (e c20cEntry) String() string { return fmt.Sprintf("%s%d%s", e.Kind, e.Idx, e.Key) }
+func (e c20cEntry) String() string {
+	if e.Kind == "S" && e.Svc != nil {
+		var ports []string
+		for _, p := range e.Svc.Spec.Ports {
+			ports = append(ports, fmt.Sprintf("%s/%d", p.Protocol, p.Port))
+		}
+		return fmt.Sprintf("S:%s{type=%s share=%q%q ports=%v lbip=%q%q pool=%q status=%v}", e.Key, e.Svc.Spec.Type,
+			e.Svc.Annotations["metallb.io/allow-shared-ip"], e.Svc.Annotations["metallb.universe.tf/allow-shared-ip"], ports,
+			e.Svc.Spec.LoadBalancerIP, e.Svc.Annotations["metallb.io/loadBalancerIPs"], e.Svc.Annotations["metallb.io/address-pool"], vw.IngressIPs(e.Svc))
+	}
+	if e.Kind == "S" {
+		return "S:" + e.Key + "{deleted}"
+	}
+	return fmt.Sprintf("%s%d%s", e.Kind, e.Idx, e.Key)
+}
 
 type c20cClient struct{ w *c20cWorld }
 
@@ -110,10 +124,20 @@ func (f c20cClient) UpdateStatus(svc *v1.Service) error {
 	f.w.storeMu.Lock()
 	defer f.w.storeMu.Unlock()
 	if o := f.w.store[svc.Namespace+"/"+svc.Name]; o != nil {
+		// the write carries the status and the one annotation the controller owns. The handler's copy of the object
+		// may be older than the store (another worker's update landed meanwhile): a real API server would answer
+		// such a write with a conflict; writing the copy's annotations back wholesale would undo that update in the
+		// store and leave an object that none of the writers ever wrote
 		o.Status = *svc.Status.DeepCopy()
-		o.Annotations = map[string]string{}
-		for k, v := range svc.Annotations {
-			o.Annotations[k] = v
+		if o.Annotations == nil {
+			o.Annotations = map[string]string{}
+		}
+		for _, k := range []string{AnnotationIPAllocateFromPool, DeprecatedAnnotationIPAllocateFromPool} {
+			if v, ok := svc.Annotations[k]; ok {
+				o.Annotations[k] = v
+			} else {
+				delete(o.Annotations, k)
+			}
 		}
 	}
 	return nil
@@ -370,7 +394,11 @@ func runC20c(c c20cCase, tr *vw.Trace) *vw.Violation {
 			}
 		}
 	}
+	if len(mem) >= 2 {
+		tr.Class("exclusivity-at-rest-judged-over->=2-holders")
+	}
 	if v := exclusive(mem, "allocator-after-concurrent-delivery"); v != nil {
+		v.Detail += fmt.Sprintf("\neffect order: %v", w.log)
 		return v
 	}
 	if v := exclusive(st, "statuses-after-concurrent-delivery"); v != nil {
